@@ -151,6 +151,11 @@ def cases(tier, seed):
                 for v in vals:
                     ops.append("bf.set bf_set_%s%d%s %0*x %d" % (kind, bits, order, W // 4, v, place(rnd)))
                     ops.append("bf.ref bf_ref_%s%d%s %0*x %d" % (kind, bits, order, 2 * n, v & ((1 << bits) - 1), place(rnd)))
+                # store / load / store / load / store / load inside one function of the harness (calls the optimiser sees together)
+                sample = vals if len(vals) <= 24 else rnd.sample(vals, 24)
+                for v in sample:
+                    v2 = rnd.choice(vals)
+                    ops.append("bf.rsr bf_ref_%s%d%s %0*x %0*x %d" % (kind, bits, order, W // 4, v, W // 4, v2, place(rnd)))
                 for i in range(0, len(ops), 200):
                     cs.append(Case("%s%d%s-%d" % (kind, bits, order, i), ops[i:i + 200], ("codec", "%s%d" % (kind, bits))))
                 # sweeps
